@@ -216,6 +216,14 @@ class Interp(object):
                 raise Undecided('unpack length')
             for e, x in zip(t.elts, vals):
                 self.assign(e, x, env)
+        elif isinstance(t, ast.Subscript) and isinstance(t.slice, ast.Slice):
+            # slice assignment on a local list: xs[a:b] = ys
+            c = self.expr(t.value, env)
+            lo = self.expr(t.slice.lower, env) if t.slice.lower else None
+            hi = self.expr(t.slice.upper, env) if t.slice.upper else None
+            if t.slice.step is not None or not isinstance(c, list) or not all(x is None or (isinstance(x, int) and not isinstance(x, bool)) for x in (lo, hi)):
+                raise Undecided('slice store')
+            c[lo:hi] = list(self.iterate(v))
         elif isinstance(t, ast.Subscript):
             c = self.expr(t.value, env)
             i = self.expr(t.slice, env)
